@@ -149,15 +149,21 @@ fn op(kind: u64, tag: u64) -> u64 {
     let n = 1 + (tag % 39) as usize;
     if kind >= MIX_FROM {
         let len = (tag >> 44) as usize;
-        let buf = long_msg(tag, len + 16);
-        let off = long_off(tag);
+        // the input starts 1..15 bytes past a 16-byte boundary whatever address the allocator (under the interpreter: the seed)
+        // hands out - the content does not depend on where it lies
+        let content = long_msg(tag, len);
+        let mut buf = vec![0u8; len + 32];
+        let off = (long_off(tag) + 16 - (buf.as_ptr() as usize % 16)) % 16;
+        buf[off..off + len].copy_from_slice(&content);
         let m = &buf[off..off + len];
         macro_rules! stream {
             ($T:ty, $nl:expr) => {{
                 let mut c = <$T>::new(GenericArray::from_slice(&msg[..32]), GenericArray::from_slice(&msg[8..8 + $nl]));
                 let mut b = buf.clone();
+                let off = (long_off(tag) + 16 - (b.as_ptr() as usize % 16)) % 16;
+                b[off..off + len].copy_from_slice(&content);
                 c.apply_keystream(&mut b[off..off + len]);
-                fold(&b)
+                fold(&b[off..off + len])
             }};
         }
         return match kind - MIX_FROM {
